@@ -318,10 +318,14 @@ static Run run_solver_inproc(const Mat &A, Index neigen, const json &opt, bool h
     if (opt.value("reuse", false) && !ham && !record) {
       // history: the same solver object has already completed an (easy, converging) solve; the statement quantifies over
       // matrices and options, so what the object did before must not show in the result or in info()
-      Mat W = Mat::Zero(9, 9);
-      for (Index i = 0; i < 9; ++i) W(i, i) = double(1 + 2 * i);
-      for (Index i = 0; i < 9; ++i)
-        for (Index j = 0; j < 9; ++j)
+      // reuse_same_n: the earlier operator has the dimension of this one and its small diagonal elements sit where this
+      // one has its large ones (anything cached per dimension would be stale)
+      const bool same_n = opt.value("reuse_same_n", false) && A.rows() >= 2;
+      const Index wn = same_n ? A.rows() : 9;
+      Mat W = Mat::Zero(wn, wn);
+      for (Index i = 0; i < wn; ++i) W(i, i) = same_n ? -A(i, i) + 0.5 * double(i % 3) : double(1 + 2 * i);
+      for (Index i = 0; i < wn; ++i)
+        for (Index j = 0; j < wn; ++j)
           if (i != j) W(i, j) = 0.01 / double(1 + (i > j ? i - j : j - i) + ((i * j) % 3));
       try {
         DS.solve(W, 1);
@@ -604,7 +608,7 @@ static void check_symm(Result &r, const json &c, const Mat &A, const Run &R, boo
   r.cls(std::string("opt:") + opt.at("corr").get<std::string>() + "/" + opt.at("upd").get<std::string>());
   r.cls(std::string("tol:") + opt.at("tol").get<std::string>());
   if (opt.value("mf", false)) r.cls("matrix-free");
-  if (opt.value("reuse", false)) r.cls("solver-object-reused");
+  if (opt.value("reuse", false)) r.cls(opt.value("reuse_same_n", false) ? "solver-object-reused(earlier operator of the same dimension)" : "solver-object-reused");
   r.cls(n <= 16 ? "n<=16" : n <= 50 ? "n<=50" : n <= 100 ? "n<=100" : "n>100");
 
   if (R.lambda.size() != k || R.vecs.cols() != k || R.vecs.rows() != n) {
@@ -750,6 +754,7 @@ static json gen_opt(bool default_space, Index neigen, Index n, int iter_lo, int 
   o["iter"] = ri(iter_lo, iter_hi);
   o["mf"] = rbool(30);
   o["reuse"] = rbool(25);
+  o["reuse_same_n"] = rbool(60);
   long space = 0;
   if (!default_space) {
     int k = ri(0, 3);
@@ -1194,7 +1199,7 @@ static Result run_ham(const json &c) {
   r.cls(std::string("tol:") + opt.at("tol").get<std::string>());
   r.cls(c.contains("offabs") ? "ham:strict(separated diagonal, couplings<=0.05)" : fmt("ham:general dom=%.2f", c.at("dom").get<double>()));
   if (opt.value("mf", false)) r.cls("matrix-free");
-  if (opt.value("reuse", false)) r.cls("solver-object-reused");
+  if (opt.value("reuse", false)) r.cls(opt.value("reuse_same_n", false) ? "solver-object-reused(earlier operator of the same dimension)" : "solver-object-reused");
   if (c.value("repaired", false)) r.cls("excluded-known:uncoupled-olsen-start(repaired)");
   Run R = run_solver(H, k, opt, true);
   Ctx X{c, H, k, true, R};
